@@ -74,7 +74,7 @@ def strip_generics(path):
     i = 0
     while i < len(path):
         c = path[i]
-        if path.startswith("::<", i) and depth == 0:
+        if path.startswith("::<", i) and depth == 0 and not path.startswith("::<impl ", i):
             # skip balanced <...>
             j = i + 2
             d = 0
